@@ -312,7 +312,7 @@ def harnesses(tier):
 ORACLES = [
     {'name': 'the real migration functions on real temporary directories with builtins.open / shutil.move / os.makedirs patched to stop (crash) or raise OSError '
              'at the k-th file-system primitive; after each, content hashes and the classification of probe transactions (now and after a re-run) are compared', 'script': 'C15.py',
-     'bound': 'every primitive index x {crash, OSError} for _migrate_csv_to_rules (via tally up --migrate and tally init) and migrate_v0_to_v1'},
+     'bound': 'every primitive index x {crash, OSError} for _migrate_csv_to_rules (via tally up --migrate and tally init) and migrate_v0_to_v1; budgets with existing target files; 5 settings texts x 3 settings-file arrangements through the whole command; layout migration into an existing ./tally'},
 ]
 TRUSTED_BASE = ['pyvc symbolic executor', 'ghost file system (A9): paths are atoms, rename within a directory is atomic, a crash can leave any prefix of a write, single fault',
                 'effective_rules(fs) mirrors load_config\'s selection (proved in C11) and get_all_rules (a broken .rules file counts as not classifying with the user\'s rules)',
